@@ -8,6 +8,10 @@ BASELINE = json.load(open("/root/.vp/BASELINE.json"))["cmd"] if os.path.exists("
 
 # id -> (built?, level text, level note, technique, design ref)
 P = {
+ "C09": (True,
+  "Lean theorems over a model of the template scanner, the Sprintf scanner, Comment/GoDirective and the snippet tree (scan_eq_subst: the repaired template scanner IS substitution into the tokens of the format — maximal names, one apostrophe consumed, argument text never tokenized; sprintf_spec likewise for %v/%T/%%; renderS_tmpl / renderS_sprintf / seq_spec lift both to snippet trees of any depth; lines_roundtrip / comment_lines for Comment), tied to the code by a differential run of the compiled model against snippet.T/Sprintf/Snippets/Comment/GoDirective rendered through a real SnippetWriter (random trees, exhaustive short formats) and judged by an independent Go re-statement of the property.",
+  "Trusted: Lean kernel; text/scanner.Next modelled as 'next rune, invalid bytes become U+FFFD' (its leading-BOM skip is known finding F7, outside the theorems' domain); renderings of raw Go values under %v/%T are leaves supplied by the real dumper (C10/C11); the correspondence is a sample.",
+  "Lean 4 proof (scanner = substitution, by induction) + model/implementation correspondence + independent oracle", "6 C09"),
  "C19": (True,
   "Lean theorems over a model of Split parametric in the three Unicode predicates (split_total_lossless: for every classification and every input the guarded splitter returns non-empty words whose concatenation is the input; splitBytes_total for byte strings that are not UTF-8; makeCase_total for every converter built on it), tied to the code by a differential run of the compiled model against camelcase.Split and the six converters (rune classes taken from Go's unicode tables) incl. an exhaustive enumeration of all short strings over an 8-symbol alphabet covering the four classes.",
   "Trusted: Lean kernel; the hand-written model's agreement with the code is sampled (and exhaustive only on the small alphabet); unicode.IsLower/IsUpper/IsDigit are arbitrary predicates in the theorems; strings.ToLower/ToUpper, cases.Title are parameters (total library functions).",
